@@ -583,6 +583,7 @@ func (fr *Frame) convert(x *ssa.Convert, st *State, g string) {
 			fc.eng.declareUF(fc, "bseq", []string{"(Array Int Int)", "Int", "Int"}, "Int")
 			fc.assume("true", eq(app("bseq", blk, "0", n), app("strseq", v.t)))
 		}
+		fc.kvstrFact(v.t, blk, "0", n) // ext_kvstr.go
 	case tok && tb.Info()&types.IsString != 0:
 		if _, isSl := from.(*types.Slice); isSl {
 			k, s := fc.bKey(types.Typ[types.Uint8])
@@ -590,6 +591,7 @@ func (fr *Frame) convert(x *ssa.Convert, st *State, g string) {
 			fr.setVal(x, "Str", app("str_of_bytes", blk, soff(v.t), slen(v.t)))
 			fc.assume("true", eq(app("strlen", fr.vals[x].t), slen(v.t)))
 			fc.bytesToStrFact(blk, soff(v.t), slen(v.t), fr.vals[x].t) // ext_bytesalgebra.go
+			fc.kvstrFact(fr.vals[x].t, blk, soff(v.t), slen(v.t)) // ext_kvstr.go
 			return
 		}
 		fc.unsupported("conversion to string from " + x.X.Type().String())
@@ -776,6 +778,10 @@ func (fr *Frame) typeAssert(x *ssa.TypeAssert, st *State, g string) {
 func (fr *Frame) panicInstr(x *ssa.Panic, st *State, g string) {
 	fc := fr.fc
 	if fr.top && fr.spec != nil {
+		if fr.noPanicOld != "" { // ext_nopanic.go: under the stated condition this panic must be unreachable
+			fc.oblige(fr, "nopanic", "panic", g, not(fr.noPanicOld), x.Pos(), "explicit panic unreachable under the `nopanic when` condition", fr.props())
+			return
+		}
 		if fr.spec.MayPanic {
 			return
 		}
@@ -807,6 +813,9 @@ func (fr *Frame) ret(x *ssa.Return, st *State, g string) {
 		env := fr.specEnv(st, fr.entry)
 		fr.bindResults(env, res)
 		for i, cl := range fr.spec.Ensures {
+			if !clauseActive(cl) { // ext_propfilter.go: a clause of another property is proved by that property's check
+				continue
+			}
 			t, err := env.evalBool(cl.E)
 			if err != nil {
 				fc.eng.stale(fr.spec, cl, err)
@@ -837,7 +846,7 @@ func (fr *Frame) applyHints(where, calleeKey string, b *ssa.BasicBlock, st *Stat
 	}
 	fc := fr.fc
 	for i, h := range fr.spec.Hints {
-		if h.Where != where {
+		if h.Where != where || !clauseActive(h.Clause) { // ext_propfilter.go
 			continue
 		}
 		if where == "after" && !(strings.HasSuffix(calleeKey, "."+h.Callee) || strings.HasSuffix(calleeKey, ")."+h.Callee) || calleeKey == h.Callee) {
@@ -856,6 +865,9 @@ func (fr *Frame) applyHints(where, calleeKey string, b *ssa.BasicBlock, st *Stat
 			if i == 0 {
 				env.vars["callresult"] = r
 			}
+			if i == len(fr.lastCallRes)-1 && r.typ != nil && isErrorType(r.typ) {
+				env.vars["callerr"] = r // the last result of the call, if it is an error
+			}
 		}
 		t, err := env.evalBool(h.Clause.E)
 		fr.curLocals, fr.curLocalAddrs = nil, nil
@@ -866,6 +878,7 @@ func (fr *Frame) applyHints(where, calleeKey string, b *ssa.BasicBlock, st *Stat
 				fr.hintErr = map[int]error{}
 			}
 			fr.hintErr[i] = err
+			fr.hintUnavailable(i, h, b, st, g, res, err) // ext_hintguard.go: obligation / warning instead of a silent skip
 			continue
 		}
 		if err != nil {
@@ -880,7 +893,11 @@ func (fr *Frame) applyHints(where, calleeKey string, b *ssa.BasicBlock, st *Stat
 		if label == "" {
 			label = fmt.Sprint(i)
 		}
-		fc.oblige(fr, "hint", label, g, t, token.NoPos, h.Clause.Text, fr.props())
+		hprops := h.Clause.Props
+		if len(hprops) == 0 {
+			hprops = fr.props()
+		}
+		fc.oblige(fr, "hint", label, g, t, token.NoPos, h.Clause.Text, hprops)
 	}
 }
 
@@ -1066,7 +1083,17 @@ func (fr *Frame) localsAt(h *ssa.BasicBlock, pidx int) (map[string]func(*State) 
 			if !ok {
 				break
 			}
-			if phi.Comment == "" || strings.HasPrefix(phi.Comment, "range") {
+			if phi.Comment == "" {
+				continue
+			}
+			if strings.HasPrefix(phi.Comment, "range") {
+				// the index phi of an EARLIER loop (already left at h): addressable as rangeindex_<loop ordinal> — the index of the
+				// last element processed when the loop was left (needed by `hint return` after a loop)
+				if li := fr.loops[b]; li != nil && !li.body[h] {
+					if sv, known := fr.vals[phi]; known {
+						out[fmt.Sprintf("%s_%d", strings.ReplaceAll(phi.Comment, ".", "_"), li.ordinal)] = func(*State) SV { return sv }
+					}
+				}
 				continue
 			}
 			if sv, known := fr.vals[phi]; known {
@@ -1203,6 +1230,9 @@ func valueBlock(v ssa.Value) *ssa.BasicBlock {
 func (fr *Frame) invariantsOf(li *loopInfo) []Clause {
 	if fr.spec == nil {
 		return nil
+	}
+	if fr.top {
+		return activeClauses(fr.spec.LoopInv[li.ordinal]) // ext_propfilter.go
 	}
 	return fr.spec.LoopInv[li.ordinal]
 }
